@@ -42,7 +42,24 @@ def key(v):
 sorted([1, 2], key=key)
 tick()
 `,
-	// 3: infinite loop (while) — must be stopped by the limit for every N
+	// 3: re-entrant execution on the same thread through opcodes other than CALL:
+	// load (thread.Load runs a module), attribute access, binary operator and iteration
+	// of a host value that call back into Starlark.
+	`load("m.star", "v")
+def cb():
+    tick()
+    return 1
+hv.cb = cb
+a = hv.attr
+tick()
+b = hv + 1
+tick()
+for e in hv:
+    tick()
+c = f2()
+tick()
+`,
+	// 4: infinite loop (while) — must be stopped by the limit for every N
 	`def spin():
     while True:
         tick()
@@ -54,6 +71,65 @@ var zzC07Opts = &syntax.FileOptions{Set: true, While: true, TopLevelControl: tru
 
 type zzTickLog struct {
 	steps []uint64 // thread.Steps observed at each tick() call
+}
+
+// zzHost is a host value whose attribute access, + operator and iteration call back
+// into Starlark on the current thread.
+type zzHost struct {
+	thread *Thread
+	cb     Value
+	n      int
+}
+
+func (h *zzHost) String() string        { return "host" }
+func (h *zzHost) Type() string          { return "host" }
+func (h *zzHost) Freeze()               {}
+func (h *zzHost) Truth() Bool           { return True }
+func (h *zzHost) Hash() (uint32, error) { return 1, nil }
+func (h *zzHost) AttrNames() []string   { return []string{"attr", "cb"} }
+func (h *zzHost) SetField(name string, v Value) error {
+	h.cb = v
+	return nil
+}
+func (h *zzHost) Attr(name string) (Value, error) {
+	if name == "attr" && h.cb != nil {
+		return Call(h.thread, h.cb, nil, nil)
+	}
+	return nil, nil
+}
+func (h *zzHost) Binary(op syntax.Token, y Value, side Side) (Value, error) {
+	if h.cb != nil {
+		return Call(h.thread, h.cb, nil, nil)
+	}
+	return nil, nil
+}
+func (h *zzHost) Iterate() Iterator { return &zzHostIter{h, 0} }
+
+type zzHostIter struct {
+	h *zzHost
+	i int
+}
+
+func (it *zzHostIter) Next(p *Value) bool {
+	if it.i >= 2 {
+		return false
+	}
+	it.i++
+	v, err := Call(it.h.thread, it.h.cb, nil, nil)
+	if err != nil {
+		return false
+	}
+	*p = v
+	return true
+}
+func (it *zzHostIter) Done() {}
+
+func zzC07Setup(th *Thread, env StringDict) {
+	env["hv"] = &zzHost{thread: th}
+	th.Load = func(t *Thread, module string) (StringDict, error) {
+		return ExecFileOptions(zzC07Opts, t, module, "v = [x * x for x in range(3)]\ndef f2():\n    return v[1]\n", nil)
+	}
+	env["f2"] = NewBuiltin("f2", func(thread *Thread, b *Builtin, args Tuple, kwargs []Tuple) (Value, error) { return None, nil })
 }
 
 func zzC07Env(log *zzTickLog) StringDict {
@@ -73,15 +149,17 @@ func zzC07Env(log *zzTickLog) StringDict {
 //verif:unwind 400
 //verif:decisions 2000
 func zzH07_limit() {
-	nprog := zzParam("programs", 2, 4)
+	nprog := zzParam("programs", 4, 5)
 	pi := zzChoice("prog", nprog)
 	src := zzC07Progs[pi]
 	// reference run without limit (concrete), bounded for the infinite program by a concrete limit
 	ref := &zzTickLog{}
 	t0 := &Thread{Name: "ref"}
-	const refCap = 90
+	const refCap = 150
 	t0.SetMaxExecutionSteps(refCap)
-	_, err0 := ExecFileOptions(zzC07Opts, t0, "p.star", src, zzC07Env(ref))
+	env0 := zzC07Env(ref)
+	zzC07Setup(t0, env0)
+	_, err0 := ExecFileOptions(zzC07Opts, t0, "p.star", src, env0)
 	total := t0.Steps // number of steps the whole program needs (or refCap for the infinite one)
 	infinite := err0 != nil
 	zzObserve("total", total)
@@ -100,7 +178,9 @@ func zzH07_limit() {
 	th := &Thread{Name: "t"}
 	th.Steps = s0
 	th.SetMaxExecutionSteps(N)
-	_, err := ExecFileOptions(zzC07Opts, th, "p.star", src, zzC07Env(log))
+	env := zzC07Env(log)
+	zzC07Setup(th, env)
+	_, err := ExecFileOptions(zzC07Opts, th, "p.star", src, env)
 
 	// instruction numbered k (1-based, relative) executes iff s0+k < N.
 	// So the run completes iff s0+total < N.
@@ -143,11 +223,14 @@ func zzH07_exhausted() {
 	zzReach("end")
 }
 
-// zzH07_cancel: host actions injected at every act() call. After the first
-// effective Cancel no further tick happens; the error names the first reason since
-// the last Uncancel; cancellation persists for the next execution unless reset.
+// zzH07_cancel: host actions injected at every act() call, combined with a symbolic step
+// limit. Execution stops at the first loop head at which a cancellation is pending or the
+// limit is reached; no tick happens afterwards; the error names the FIRST reason (a host
+// reason pending when the limit is hit wins over "too many steps"); cancellation
+// persists for the next execution unless reset.
 //
-//verif:unwind 200
+//verif:unwind 300
+//verif:decisions 3000
 func zzH07_cancel() {
 	const src = `def body(i):
     act()
@@ -157,56 +240,106 @@ for i in range(3):
 act()
 tick()
 `
-	nacts := 4
+	// reference run: step numbers of every act() and tick() call, and the total
+	type ev struct {
+		step uint64
+		act  bool
+	}
+	var evs []ev
+	t0 := &Thread{Name: "ref"}
+	env0 := StringDict{
+		"tick": NewBuiltin("tick", func(thread *Thread, b *Builtin, args Tuple, kwargs []Tuple) (Value, error) {
+			evs = append(evs, ev{thread.Steps, false})
+			return None, nil
+		}),
+		"act": NewBuiltin("act", func(thread *Thread, b *Builtin, args Tuple, kwargs []Tuple) (Value, error) {
+			evs = append(evs, ev{thread.Steps, true})
+			return None, nil
+		}),
+	}
+	_, err0 := ExecFileOptions(zzC07Opts, t0, "c.star", src, env0)
+	zzAssert(err0 == nil, "C07.cancel.reference_runs")
+	total := t0.Steps
+
+	N := zzU64("N")
+	zzAssume(zzAnd(N >= 1, N < 1<<62))
 	th := &Thread{Name: "t"}
+	th.SetMaxExecutionSteps(N)
 	log := &zzTickLog{}
-	var pending string // model: reason in force ("" = none)
 	acts := 0
-	ticksWhenCancelled := -1
 	env := zzC07Env(log)
+	var choices [8]int
 	env["act"] = NewBuiltin("act", func(thread *Thread, b *Builtin, args Tuple, kwargs []Tuple) (Value, error) {
 		k := acts
 		acts++
-		switch zzChoice("act"+string(rune('0'+k)), 5) {
+		c := zzChoice("act"+string(rune('0'+k)), 5)
+		choices[k] = c
+		switch c {
+		case 1:
+			thread.Cancel("a")
+		case 2:
+			thread.Cancel("b")
+		case 3:
+			thread.Uncancel()
 		case 4: // two cancellations in a row (e.g. from two goroutines): the first reason wins
 			thread.Cancel("a")
 			thread.Cancel("b")
-			if pending == "" {
-				pending = "a"
-				ticksWhenCancelled = len(log.steps)
-			}
-		case 1:
-			thread.Cancel("a")
-			if pending == "" {
-				pending = "a"
-				ticksWhenCancelled = len(log.steps)
-			}
-		case 2:
-			thread.Cancel("b")
-			if pending == "" {
-				pending = "b"
-				ticksWhenCancelled = len(log.steps)
-			}
-		case 3:
-			thread.Uncancel()
-			pending = ""
-			ticksWhenCancelled = -1
 		}
 		return None, nil
 	})
-	_ = nacts
 	_, err := ExecFileOptions(zzC07Opts, th, "c.star", src, env)
-	// The program calls act() 4 times unless cancelled earlier. Cancellation takes effect at the
-	// next instruction after the built-in returns: no tick after an effective cancel.
+
+	// Model. Walk the reference events in order; event e (the CALL instruction at step e.step)
+	// executes iff e.step < N and no cancellation became pending at an earlier act.
+	pending := ""
+	wantTicks := 0
+	actIdx := 0
+	var limitFirst bool // the limit is what stopped the run (symbolic)
+	stopped := false
+	for _, e := range evs {
+		if stopped {
+			break
+		}
+		if e.act {
+			if actIdx >= acts {
+				// this act was not executed in the symbolic run: the limit struck before it
+				break
+			}
+			switch choices[actIdx] {
+			case 1, 4:
+				pending = "a"
+			case 2:
+				pending = "b"
+			}
+			actIdx++
+			if pending != "" {
+				stopped = true
+			}
+		} else {
+			wantTicks++
+		}
+	}
+	_ = limitFirst
 	if pending != "" {
+		// a host cancellation was delivered by an executed act: it must be reported, even when
+		// the step limit is reached at the very next loop head
 		zzAssert(err != nil, "C07.cancel.fails")
 		if err != nil {
 			zzAssert(strings.HasSuffix(err.Error(), "cancelled: "+pending), "C07.cancel.first_reason")
 		}
-		zzAssert(len(log.steps) == ticksWhenCancelled, "C07.cancel.no_effect_after_cancel")
 	} else {
-		zzAssert(err == nil, "C07.cancel.uncancelled_completes")
-		zzAssert(len(log.steps) == 4, "C07.cancel.all_effects")
+		zzAssert((err == nil) == (total < N), "C07.cancel.limit_only")
+		if err != nil {
+			zzAssert(strings.HasSuffix(err.Error(), "cancelled: too many steps"), "C07.cancel.limit_reason")
+		}
+	}
+	// no effect after the stopping point: every executed tick has a step below the limit, and
+	// ticks following an effective cancel never run
+	for _, st := range log.steps {
+		zzAssert(st < N, "C07.cancel.no_effect_at_or_after_limit")
+	}
+	if pending != "" {
+		zzAssert(len(log.steps) <= wantTicks, "C07.cancel.no_effect_after_cancel")
 	}
 	// a later execution on the same thread
 	log2 := &zzTickLog{}
@@ -214,11 +347,12 @@ tick()
 	if reset {
 		th.Uncancel()
 	}
+	th.SetMaxExecutionSteps(1 << 62)
 	_, err2 := ExecFileOptions(zzC07Opts, th, "d.star", "tick()\n", zzC07Env(log2))
-	if pending != "" && !reset {
+	if err != nil && !reset {
 		zzAssert(err2 != nil, "C07.cancel.persists")
 		zzAssert(len(log2.steps) == 0, "C07.cancel.persists_no_effect")
-		if err2 != nil {
+		if err2 != nil && pending != "" {
 			zzAssert(strings.HasSuffix(err2.Error(), "cancelled: "+pending), "C07.cancel.persists_reason")
 		}
 	} else {
